@@ -63,14 +63,18 @@ type loadInputs struct {
 }
 
 func (w *World) prepareInputs(n *Node) *loadInputs {
-	in := &loadInputs{set: copySet(n.Set)}
-	c, err := n.Log.ToMultihash(w.ctx)
+	return w.prepareInputsOf(n.Log, n.Set)
+}
+
+func (w *World) prepareInputsOf(l *ipfslog.IPFSLog, set map[string]bool) *loadInputs {
+	in := &loadInputs{set: copySet(set)}
+	c, err := l.ToMultihash(w.ctx)
 	if err != nil {
 		w.R.Violate(w.P.Prop+":publish-error", "ToMultihash on a non-empty log failed: %v", err)
 	}
 	in.manifest = c
-	in.json = n.Log.ToJSONLog()
-	in.heads = n.Log.Heads().Slice()
+	in.json = l.ToJSONLog()
+	in.heads = l.Heads().Slice()
 	if len(in.heads) == 1 {
 		in.single = true
 		in.hash = in.heads[0].GetHash()
@@ -128,13 +132,13 @@ func (w *World) invokeLoader(ctx context.Context, in *loadInputs, sp loadSpec, r
 	case ldManifest:
 		l, err = ipfslog.NewFromMultihash(ctx, w.St, rcv.ID, in.manifest, o, &ipfslog.FetchOptions{Concurrency: sp.conc, Length: sp.length, Timeout: sp.timeout, ProgressChan: w.curProgress})
 	case ldJSON:
-		l, err = ipfslog.NewFromJSON(ctx, w.St, rcv.ID, in.json, o, &entry.FetchOptions{Concurrency: sp.conc, Length: sp.length, Timeout: sp.timeout, ProgressChan: w.curProgress})
+		l, err = ipfslog.NewFromJSON(ctx, w.St, rcv.ID, in.json, o, w.fetchOpts(sp.conc, sp.length, sp.timeout))
 	case ldEntries:
 		// the caller's slice may have spare capacity (built with make/append): the library must neither
 		// write into that capacity in a way that disturbs the result nor reorder what the caller passed
 		src := make([]iface.IPFSLogEntry, len(in.heads), len(in.heads)+sp.spare)
 		copy(src, in.heads)
-		l, err = ipfslog.NewFromEntry(ctx, w.St, rcv.ID, src, o, &entry.FetchOptions{Concurrency: sp.conc, Length: sp.length, Timeout: sp.timeout, ProgressChan: w.curProgress})
+		l, err = ipfslog.NewFromEntry(ctx, w.St, rcv.ID, src, o, w.fetchOpts(sp.conc, sp.length, sp.timeout))
 		for i := range in.heads {
 			if src[i] != in.heads[i] {
 				w.R.Violate(w.P.Prop+":caller-slice-modified", "NewFromEntry changed element %d of the slice of entries its caller supplied", i)
@@ -173,6 +177,51 @@ func (w *World) pickConc() int {
 }
 
 // ------------------------------------------------------------------ C09
+
+// reloadDerived: "every log state" includes the state of a log that started from a length-limited load and
+// caught up by merging. Once it holds a causally closed set again it must publish heads from which exactly
+// that log is rebuilt.
+func (w *World) reloadDerived() {
+	r := w.R
+	src, other := w.pickSource("derived-src"), w.pickSource("derived-other")
+	limPick := r.Choose("derived-limit", 1<<16)
+	if src == nil || other == nil || len(src.Set) < 2 || w.Codec == "pb" {
+		return
+	}
+	lim := 1 + limPick%(len(src.Set)-1)
+	heads := src.Log.Heads().Slice()
+	var l *ipfslog.IPFSLog
+	var err error
+	w.driven(func(ctx context.Context) {
+		l, err = ipfslog.NewFromEntry(ctx, w.St, src.W.ID, append([]iface.IPFSLogEntry(nil), heads...), w.loadOpts(), w.fetchOpts(0, &lim, 0))
+	})
+	if err != nil {
+		r.Violate("C09:load-error", "length-limited load failed with no fault injected: %v", err)
+	}
+	if _, err := l.Join(w.clone(other, true), -1); err != nil {
+		r.Violate("C09:join-error", "merge into a partially loaded log failed: %v", err)
+	}
+	held := hashSet(l.GetEntries())
+	for h := range held {
+		for _, nx := range w.M.Reg[h].Next {
+			if !held[nx] {
+				return // still not causally closed: a reload would fetch more than the log holds
+			}
+		}
+	}
+	r.Probe("reload-of-a-log-that-caught-up-after-a-limited-load")
+	in := w.prepareInputsOf(l, held)
+	sp := loadSpec{loader: w.pickLoader(in), conc: w.pickConc(), bias: r.Choose("bias", 3)}
+	l2, err, _ := w.load(in, sp, Writers()[4])
+	if err != nil {
+		r.Violate("C09:load-error", "%s of a stored log failed with no fault injected: %v", loaderNames[sp.loader], err)
+	}
+	_, strict := w.M.Linear(held, w.ByHash)
+	if d := w.sameObs(w.observe(l), w.observe(l2), strict); d != "" {
+		r.Violate("C09:equal", "log rebuilt by %s from a log that had started from a length-limited load and caught up by merging differs from it: %s", loaderNames[sp.loader], d)
+	}
+	w.St.Reqs = nil
+}
 
 func c09Profile() *Profile {
 	p := e0Profile("C09", "C09")
@@ -219,6 +268,9 @@ func RunC09(r *Run) {
 		}
 		if len(w.St.Reqs) > 0 {
 			w.St.Reqs = nil
+		}
+		if r.Choose("derived-log", 4) == 0 {
+			w.reloadDerived()
 		}
 		// change some replica between two publications
 		switch r.Choose("between", 3) {
